@@ -399,6 +399,8 @@ def execute(ctx, route, fail_at=0, spelling=None, workdir=None, bad=None, preexi
                     res["outcome"] = "raised"
                     res["exc"] = "exit status %s: %s" % (status, se.strip().splitlines()[-1] if se.strip() else "")
                     res["data"] = open(outp, "rb" if binary else "r").read() if os.path.exists(outp) else None
+                    if res["data"] is not None and res["data"] == (preexisting.encode() if binary else preexisting):
+                        res["data"] = None          # the earlier file was left alone: nothing of this run reached the output
                 else:
                     res["data"] = open(outp, "rb" if binary else "r").read()
             finally:
